@@ -26,6 +26,7 @@ import (
 	"strings"
 	"time"
 
+	crdberrors "github.com/cockroachdb/errors"
 	"github.com/knz/shakespeare/pkg/crdb/retry"
 	"github.com/knz/shakespeare/verifharness/vh"
 )
@@ -628,7 +629,8 @@ type wmaCase struct {
 	PreClosed    bool
 	PreCancel    bool
 	Pattern      []bool
-	StopAt       int // call of fn during which fn stops the loop; -1 none
+	ErrKinds     []int // what a failing call k returns: 0 "boom"; 1 context.Canceled; 2 the DeadlineExceeded of a per-attempt context; 3 a wrapper around context.Canceled; 4 errors.Wrap(context.DeadlineExceeded) — none of them from the outer context
+	StopAt       int   // call of fn during which fn stops the loop; -1 none
 	Stopper      string
 	AsyncNs      int64 // >0: a concurrent stop after this long (not deterministic)
 	Det          bool
@@ -649,6 +651,32 @@ func (c wmaCase) coq() string {
 	}
 	return fmt.Sprintf("(%s, %s, %s, %s, %s, %s, %s, %d, %s)", c.Opts.coq(), vh.Z(int64(c.N)), vh.Bool(c.PreClosed), vh.Bool(c.PreCancel),
 		vh.List(p), stop, vh.Bool(c.Det), c.Calls, vh.Bool(c.Nil))
+}
+
+type wrapped struct{ inner error }
+
+func (w wrapped) Error() string { return "attempt failed: " + w.inner.Error() }
+func (w wrapped) Unwrap() error { return w.inner }
+
+// attemptError is the error of one failed call of fn.  Kinds 1..4 are
+// context errors that do NOT come from the context given to WithMaxAttempts
+// (a per-attempt timeout, a cancelled sub-operation): the retried function
+// failed, nothing more.
+func attemptError(kind int) error {
+	switch kind {
+	case 1:
+		return context.Canceled
+	case 2:
+		c2, cancel := context.WithTimeout(context.Background(), time.Nanosecond)
+		defer cancel()
+		<-c2.Done()
+		return c2.Err()
+	case 3:
+		return wrapped{context.Canceled}
+	case 4:
+		return crdberrors.Wrap(context.DeadlineExceeded, "attempt timed out")
+	}
+	return errors.New("boom")
 }
 
 func runWMA(c wmaCase) wmaCase {
@@ -702,7 +730,11 @@ func runWMA(c wmaCase) wmaCase {
 		if i < len(c.Pattern) && c.Pattern[i] {
 			return nil
 		}
-		return errors.New("boom")
+		kind := 0
+		if i < len(c.ErrKinds) {
+			kind = c.ErrKinds[i]
+		}
+		return attemptError(kind)
 	}
 	type result struct{ err error }
 	done := make(chan result, 1)
@@ -733,6 +765,11 @@ func genWMA(rng *rand.Rand) wmaCase {
 	np := rng.Intn(8)
 	for i := 0; i < np; i++ {
 		c.Pattern = append(c.Pattern, rng.Intn(4) == 0)
+	}
+	if rng.Intn(3) == 0 {
+		for i := 0; i < 8; i++ {
+			c.ErrKinds = append(c.ErrKinds, rng.Intn(5))
+		}
 	}
 	nn := c.N
 	if nn < 1 {
@@ -921,6 +958,11 @@ func main() {
 		{Opts: optsJ{Init: 1000, Max: 10000}, N: 3, Pattern: []bool{false, false, true}, StopAt: -1, Det: true},
 		{Opts: optsJ{Init: 1000, Max: 10000}, N: 3, Pattern: []bool{false, false, false, true}, StopAt: -1, Det: true},
 		{Opts: optsJ{Init: 1000, Max: 10000}, N: 0, Pattern: []bool{true}, StopAt: -1, Det: true},
+		// fn fails with context errors of its own (outer context live), then succeeds / never succeeds
+		{Opts: optsJ{Init: 1000, Max: 10000}, N: 3, Pattern: []bool{false, true}, ErrKinds: []int{1}, StopAt: -1, Det: true},
+		{Opts: optsJ{Init: 1000, Max: 10000}, N: 3, Pattern: []bool{false, false, true}, ErrKinds: []int{2, 3}, StopAt: -1, Det: true},
+		{Opts: optsJ{Init: 1000, Max: 10000}, N: 4, ErrKinds: []int{4, 3, 2, 1}, StopAt: -1, Det: true},
+		{Opts: optsJ{Init: 1000, Max: 10000}, N: 1, ErrKinds: []int{3}, StopAt: -1, Det: true},
 	}
 	for _, c := range fixedW {
 		if hangs >= maxHangs && (c.PreClosed || c.PreCancel) {
@@ -1065,6 +1107,9 @@ func main() {
 			wmaKinds["stop-inside-fn"]++
 		default:
 			wmaKinds["plain"]++
+		}
+		if len(c.ErrKinds) > 0 {
+			wmaKinds["fn-returns-foreign-context-errors"]++
 		}
 		if c.N >= 1 {
 			nontriv[fmt.Sprintf("wma%v/%d/%v/%v/%v/%d/%s/%v", c.Opts, c.N, c.PreClosed, c.PreCancel, c.Pattern, c.StopAt, c.Stopper, c.AsyncNs > 0)] = true
